@@ -330,6 +330,8 @@ func opName(o *op) string {
 		return "select"
 	case KCall:
 		return "call " + o.label
+	case KStuck:
+		return o.label
 	default:
 		return o.label
 	}
@@ -374,6 +376,8 @@ func enabled(t *thread) bool {
 		default:
 			return true
 		}
+	case KStuck:
+		return false
 	case KSelect:
 		for i := 0; i < o.nsel; i++ {
 			c := &o.sel[i]
@@ -683,6 +687,16 @@ func Ret(n int) {
 	o := op{kind: KRet, obj: uint64(n), nacc: 1}
 	o.accs[0] = Acc{Obj: globalObj, W: true}
 	event(&o)
+}
+
+// Stuck parks the running thread for ever: the real primitive underneath is
+// not available although the model says it is (a lock left held by a call
+// that has returned or panicked). The execution then ends as a deadlock.
+//
+//go:norace
+func Stuck(label string) {
+	o := op{kind: KStuck, label: label}
+	point(&o)
 }
 
 // Yield is a plain scheduling point for harness code (e.g. cancelling a context).
